@@ -3,6 +3,7 @@ import random
 
 from bcverif import encode as E
 from bcverif.props.c05 import layouts
+from bcverif.props.c06 import cds_blocks
 from bcverif.runner import pmap, setup_repo_import
 
 ALTS = ["", "T", "GA", "CCT", "N"]
@@ -52,7 +53,7 @@ def _events(args):
     from inscripta.biocantor.gene.feature import FeatureInterval
     from inscripta.biocantor.gene.interval import AbstractInterval
     from inscripta.biocantor.location.strand import Strand
-    from bcverif.props.c06 import mk_tx
+    from bcverif.props.c06 import cds_blocks, mk_tx
 
     rnd = random.Random(seed)
     ev = []
@@ -94,6 +95,24 @@ def _events(args):
                 io = E.outcome(lambda: (lambda n: (E.loc(n.chromosome_location), list(str(n.get_spliced_sequence()))))(
                     feat.incorporate_variants(obj)))
                 ev.append(["inc", kind, list(R), Vj, lj, use_coll, io])
+            # a CODING transcript: after incorporating variants its CDS is the edited image of the reference CDS
+            n_tx = sum(b[1] - b[0] for b in blocks)
+            if n_tx >= 4:
+                ca = rnd.randrange(0, n_tx - 2)
+                cb = rnd.randrange(ca + 1, n_tx + 1)
+                cds = cds_blocks(blocks, st, ca, cb)
+                try:
+                    ctx = mk_tx(blocks, st, cds, None, parent=par)
+                except Exception:
+                    continue
+
+                def cds_after(n):
+                    if n.cds is None:
+                        return ([[], "e"], [])
+                    return (E.loc(n.cds.chromosome_location), list(str(n.cds.get_spliced_sequence())))
+
+                io = E.outcome(lambda: cds_after(ctx.incorporate_variants(obj)))
+                ev.append(["inccds", list(R), Vj, lj, [cds, st], use_coll, io])
     return ev
 
 
